@@ -540,6 +540,10 @@ class ktensor:
             if len(permutation) == self.ncomponents:
                 # a tuple would otherwise be taken as a multi-dimensional index
                 permutation = np.asarray(permutation, dtype=int)
+                if not np.array_equal(
+                    np.sort(permutation), np.arange(self.ncomponents)
+                ):
+                    assert False, "Invalid permutation of the components."
                 self.weights = self.weights[permutation]
                 for i in range(self.ndims):
                     self.factor_matrices[i] = self.factor_matrices[i][:, permutation]
